@@ -3,6 +3,7 @@ package main
 import (
 	"bytes"
 	"encoding/json"
+	"errors"
 	"fmt"
 	"io"
 	"reflect"
@@ -16,14 +17,18 @@ import (
 // For every variant: feed src to the real Parser.InteractiveSeq through a reader that hands over
 // exactly one line per Read (what a blocking pipe delivers when the writer types line by line),
 // record the externally observable events
-//     [0, i, 0]        the parser asked for more input and got line i
-//     [2, 0, 0]        the parser asked for more input and got io.EOF
-//     [1, n, inc, err] the consumer was called back with n statements, Parser.Incomplete()=inc,
-//                      err != nil
+//
+//	[0, i, 0]        the parser asked for more input and got line i
+//	[2, 0, 0]        the parser asked for more input and got io.EOF
+//	[1, n, inc, err] the consumer was called back with n statements, Parser.Incomplete()=inc,
+//	                 err != nil
+//
 // and return them together with the per-line annotation needed by spec/ShInteractiveTrace.tla:
-//     open[i]  a statement is unfinished after line i  (prefix i does not parse: IsIncomplete; or
-//              line i ends in a continuation)
-//     done[i]  number of top-level statements that are complete after line i
+//
+//	open[i]  a statement is unfinished after line i  (prefix i does not parse: IsIncomplete; or
+//	         line i ends in a continuation)
+//	done[i]  number of top-level statements that are complete after line i
+//
 // The annotation comes from Parse on the line prefixes (the C10 oracle) and from the statement end
 // offsets of Parse on the whole source; where both define done[i] they must agree, otherwise the
 // vector is returned as "unannotated" (no verdict).
@@ -81,13 +86,16 @@ type interFail struct {
 	Lang   string `json:"lang"`
 	Kind   string `json:"kind"`
 	Detail string `json:"detail"`
+	Note   string `json:"note,omitempty"`
 }
 
 type interTrace struct {
 	Lang        string  `json:"lang"`
 	Open        []int   `json:"open"`
 	Done        []int   `json:"done"`
+	Dash        []int   `json:"dash"` // line i is a body line of a `<<-` here-document (narrows a named deviation)
 	Total       int     `json:"total"`
+	Stop        int     `json:"stop"`
 	Ev          [][]int `json:"ev"`
 	Unannotated string  `json:"unannotated,omitempty"`
 }
@@ -102,7 +110,7 @@ func interEngine(raw json.RawMessage, _ []string) (any, error) {
 		Src   string   `json:"src"`
 		Langs []string `json:"langs"`
 		Cont  []int    `json:"cont"`
-		Stop  int      `json:"stop"` // >0: the consumer returns false at its stop-th callback
+		Stops bool     `json:"stops"` // also: for every k, a consumer that returns false from its k-th callback
 	}
 	if err := json.Unmarshal(raw, &v); err != nil {
 		return nil, err
@@ -119,79 +127,175 @@ func interEngine(raw json.RawMessage, _ []string) (any, error) {
 		lang := hlib.LangOf(ln)
 		full, err := parseWith(src, lang, syntax.KeepComments(true))
 		if err != nil {
-			fails = append(fails, interFail{ln, "parse-error", err.Error()})
+			fails = append(fails, interFail{Lang: ln, Kind: "parse-error", Detail: err.Error()})
 			continue
 		}
 		tr := interTrace{Lang: ln, Total: len(full.Stmts)}
 		// ---- annotation
+		byPos := func(off int) (n int) {
+			for _, s := range full.Stmts {
+				if int(s.End().Offset()) <= off {
+					n++
+				}
+			}
+			return n
+		}
+		dash := dashHdocLines(full)
 		off := 0
 		for i, l := range lines {
 			off += len(l)
-			byPos := 0
-			for _, s := range full.Stmts {
-				if int(s.End().Offset()) <= off {
-					byPos++
-				}
-			}
+			tr.Dash = append(tr.Dash, b2i(dash[i+1]))
 			pf, perr := parseWith(src[:off], lang, syntax.KeepComments(true))
 			switch {
 			case perr == nil && !cont[i+1]:
-				if len(pf.Stmts) != byPos {
-					tr.Unannotated = fmt.Sprintf("line %d: prefix has %d statements, %d end before it in the whole parse", i+1, len(pf.Stmts), byPos)
+				if len(pf.Stmts) != byPos(off) {
+					tr.Unannotated = fmt.Sprintf("line %d: prefix has %d statements, %d end before it in the whole parse", i+1, len(pf.Stmts), byPos(off))
 				}
 				tr.Open = append(tr.Open, 0)
 				tr.Done = append(tr.Done, len(pf.Stmts))
-			case perr == nil || syntax.IsIncomplete(perr):
+			case perr == nil:
+				// a continuation line: the statement it belongs to ends later
 				tr.Open = append(tr.Open, 1)
-				tr.Done = append(tr.Done, byPos)
+				tr.Done = append(tr.Done, byPos(off))
+			case syntax.IsIncomplete(perr):
+				// the error points into the unfinished statement: everything that ends before
+				// that point is finished (a statement's End does not cover its here-document
+				// bodies, so the end of the prefix cannot be used here)
+				at := off
+				var pe syntax.ParseError
+				if errors.As(perr, &pe) && pe.Pos.IsValid() {
+					at = int(pe.Pos.Offset())
+				}
+				tr.Open = append(tr.Open, 1)
+				tr.Done = append(tr.Done, byPos(at))
 			default:
 				tr.Unannotated = fmt.Sprintf("line %d: prefix fails with a complete error: %v", i+1, perr)
 				tr.Open = append(tr.Open, 0)
-				tr.Done = append(tr.Done, byPos)
+				tr.Done = append(tr.Done, byPos(off))
 			}
 		}
 		// ---- the real thing
-		p := syntax.NewParser(syntax.Variant(lang), syntax.KeepComments(true))
-		rd := &lineReader{lines: lines, ev: &tr.Ev}
-		var delivered []*syntax.Stmt
-		ncb := 0
-		for stmts, err := range p.InteractiveSeq(rd) {
-			inc := p.Incomplete()
-			tr.Ev = append(tr.Ev, []int{1, len(stmts), b2i(inc), b2i(err != nil)})
-			if err != nil {
-				fails = append(fails, interFail{ln, "interactive-error", err.Error()})
-				break
-			}
-			if !inc {
-				// the slice is reused by the parser after the callback returns: copy now
-				delivered = append(delivered, stmts...)
-			}
-			ncb++
-			if v.Stop > 0 && ncb >= v.Stop {
-				break
-			}
+		type runRes struct {
+			ev        [][]int
+			delivered []*syntax.Stmt
+			ncb       int
+			errText   string
+			panicText string
 		}
-		if v.Stop == 0 {
-			if len(delivered) != len(full.Stmts) {
-				fails = append(fails, interFail{ln, "delivered-count", fmt.Sprintf("%d delivered, Parse has %d", len(delivered), len(full.Stmts))})
-			} else {
-				for i := range delivered {
-					if !reflect.DeepEqual(delivered[i], full.Stmts[i]) {
-						fails = append(fails, interFail{ln, "delivered-differs",
-							fmt.Sprintf("statement %d: %s", i+1, sigTreeDiff(AbsPos(full.Stmts[i]), AbsPos(delivered[i])))})
-						break
-					}
+		run := func(stop int) (r runRes) {
+			defer func() {
+				if e := recover(); e != nil {
+					r.panicText = panicText(e)
+				}
+			}()
+			p := syntax.NewParser(syntax.Variant(lang), syntax.KeepComments(true))
+			rd := &lineReader{lines: lines, ev: &r.ev}
+			for stmts, err := range p.InteractiveSeq(rd) {
+				inc := p.Incomplete()
+				r.ev = append(r.ev, []int{1, len(stmts), b2i(inc), b2i(err != nil)})
+				if err != nil {
+					r.errText = err.Error()
+					break
+				}
+				if !inc {
+					// the slice is reused by the parser after the callback returns: copy now
+					r.delivered = append(r.delivered, stmts...)
+				}
+				r.ncb++
+				if stop > 0 && r.ncb >= stop {
+					break
 				}
 			}
-		} else {
-			for i := range delivered {
-				if i >= len(full.Stmts) || !reflect.DeepEqual(delivered[i], full.Stmts[i]) {
-					fails = append(fails, interFail{ln, "delivered-differs", fmt.Sprintf("statement %d (stopped consumer)", i+1)})
+			return r
+		}
+		check := func(r runRes, stop int) {
+			tag := ""
+			if stop > 0 {
+				tag = fmt.Sprintf(" (consumer stops at callback %d)", stop)
+			}
+			if r.panicText != "" {
+				where := "after the end of input"
+				if stop > 0 && len(r.ev) > 0 {
+					last := r.ev[len(r.ev)-1]
+					where = "consumer stopped in a callback for finished statements"
+					if last[0] == 1 && last[2] == 1 {
+						where = "consumer stopped in an Incomplete callback"
+					} else if last[0] == 1 && last[1] == 0 {
+						where = "consumer stopped in an empty callback"
+					}
+				}
+				fails = append(fails, interFail{Lang: ln, Kind: "panic", Detail: where + ": " + r.panicText, Note: tag})
+				return
+			}
+			if r.errText != "" {
+				fails = append(fails, interFail{Lang: ln, Kind: "interactive-error", Detail: r.errText, Note: tag})
+			}
+			if stop == 0 && len(r.delivered) != len(full.Stmts) {
+				fails = append(fails, interFail{Lang: ln, Kind: "delivered-count", Detail: fmt.Sprintf("%d delivered, Parse has %d", len(r.delivered), len(full.Stmts))})
+				return
+			}
+			for i := range r.delivered {
+				if i >= len(full.Stmts) || !reflect.DeepEqual(r.delivered[i], full.Stmts[i]) {
+					d := "more statements than Parse has"
+					if i < len(full.Stmts) {
+						d = sigTreeDiff(AbsPos(full.Stmts[i]), AbsPos(r.delivered[i]))
+					}
+					fails = append(fails, interFail{Lang: ln, Kind: "delivered-differs", Detail: d, Note: tag})
 					break
 				}
 			}
 		}
+		r0 := run(0)
+		check(r0, 0)
+		tr.Ev = r0.ev
+		if r0.panicText != "" {
+			tr.Unannotated = "panic"
+		}
 		traces = append(traces, tr)
+		if v.Stops {
+			for k := 1; k <= r0.ncb; k++ {
+				rk := run(k)
+				check(rk, k)
+				if rk.panicText == "" {
+					ts := tr
+					ts.Ev, ts.Stop = rk.ev, k
+					traces = append(traces, ts)
+				}
+			}
+		}
 	}
 	return map[string]any{"fails": fails, "traces": traces}, nil
+}
+
+// dashHdocLines returns the set of source lines that are body lines of a `<<-` here-document.
+// It walks the tree by reflection (syntax.Walk is under test elsewhere).
+func dashHdocLines(f *syntax.File) map[int]bool {
+	out := map[int]bool{}
+	var walk func(v reflect.Value)
+	walk = func(v reflect.Value) {
+		switch v.Kind() {
+		case reflect.Interface, reflect.Pointer:
+			if !v.IsNil() {
+				walk(v.Elem())
+			}
+		case reflect.Slice:
+			for i := 0; i < v.Len(); i++ {
+				walk(v.Index(i))
+			}
+		case reflect.Struct:
+			if rd, ok := v.Interface().(syntax.Redirect); ok && rd.Op == syntax.DashHdoc && rd.Hdoc != nil {
+				from, to := int(rd.Hdoc.Pos().Line()), int(rd.Hdoc.End().Line())
+				for l := from; l < to; l++ {
+					out[l] = true
+				}
+			}
+			for i := 0; i < v.NumField(); i++ {
+				if v.Type().Field(i).IsExported() {
+					walk(v.Field(i))
+				}
+			}
+		}
+	}
+	walk(reflect.ValueOf(f))
+	return out
 }
